@@ -7,7 +7,7 @@ STATIC = ["Base/Syntax.v", "Model/PyNum.v", "Model/IR.v", "Model/VM.v", "Model/E
           "Proofs/LowerExprProofs.v", "Proofs/ElabExprProofs.v", "Proofs/ReturnExprProofs.v", "Proofs/CallAgreeProofs.v", "Proofs/ReturnExprExample.v", "Harness/FragLib.v",
           "Proofs/LowerStmtProofs.v", "Proofs/ElabStmtProofs.v", "Proofs/StraightLineProofs.v", "Proofs/StraightLineExample.v", "Harness/FragLib2.v", "Proofs/FlowLowerProofs.v", "Proofs/FlowFuncProofs.v", "Harness/FlowLib.v",
           "Proofs/FlowElabProofs.v", "Proofs/FlowTableProofs.v", "Proofs/FlowSimProofs.v", "Proofs/FlowSimExample.v", "Harness/FlowLib2.v",
-          "Proofs/LoopLowerProofs.v", "Proofs/LoopElabProofs.v", "Proofs/LoopSimProofs.v", "Proofs/LoopSimExample.v", "Proofs/DoSimExample.v", "Proofs/ForLowerExample.v", "Harness/LoopLib.v"]
+          "Proofs/LoopLowerProofs.v", "Proofs/LoopElabProofs.v", "Proofs/LoopSimProofs.v", "Proofs/LoopSimExample.v", "Proofs/DoSimExample.v", "Proofs/ForLowerExample.v", "Proofs/ForElabProofs.v", "Proofs/ForSimExample.v", "Harness/LoopLib.v"]
 
 
 def gen_programs(ctx, n):
@@ -192,7 +192,7 @@ def loop_programs(ctx, n):
                 bound = rng.choice([I(2), I(3), B("%", B("*", V("a"), V("a")), I(4)), I(0)])
                 inner = [assign() if rng.random() < 0.6 else cond(1) for _ in range(rng.choice([1, 2]))]
                 lbody = Block(inner + [ES(A(V(i), B("+", V(i), I(1))))])
-                # a quarter of the loops are for loops with the counter declared in the header (the typed-level theorem); of the others two in five are do
+                # a quarter of the loops are for loops with the counter declared in the header; of the others two in five are do
                 # loops: the body runs once before the condition is evaluated, also when the bound is 0
                 kind_ = rng.random()
                 if kind_ < 0.25:
@@ -383,7 +383,7 @@ def run(ctx):
     bad_spec, bad_model = [], []
     frag = {"functions": 0, "inside_proved_fragment": 0, "literal_test_passed": 0}
     sfrag = {"functions": 0, "inside_proved_fragment": 0, "literal_test_passed": 0, "lowered_ir_also_in_forwarding_fragment": 0}
-    lfrag = {"functions": 0, "inside_end_to_end_fragment_literals_exact": 0, "of_which_with_a_loop": 0, "of_which_with_a_do_loop": 0}
+    lfrag = {"functions": 0, "inside_end_to_end_fragment_literals_exact": 0, "of_which_with_a_loop": 0, "of_which_with_a_do_loop": 0, "of_which_with_a_for_loop": 0}
     tfrag = {"functions": 0, "inside_typed_lowering_fragment": 0, "of_which_with_a_for_loop": 0}
     ffrag = {"functions": 0, "inside_lowering_fragment": 0, "of_which_with_a_conditional": 0, "inside_end_to_end_fragment_literals_exact": 0}
     for x, c in zip(meta, codes):
@@ -397,8 +397,8 @@ def run(ctx):
                 tfrag["functions"] += tc // 10000; tfrag["inside_typed_lowering_fragment"] += (tc // 100) % 100; tfrag["of_which_with_a_for_loop"] += tc % 100
             if fc >= 300000000:
                 fc -= 300000000
-                lfrag["functions"] += fc // 1000000; lfrag["inside_end_to_end_fragment_literals_exact"] += (fc // 10000) % 100
-                lfrag["of_which_with_a_loop"] += (fc // 100) % 100; lfrag["of_which_with_a_do_loop"] += fc % 100
+                lfrag["functions"] += fc // 100000000; lfrag["inside_end_to_end_fragment_literals_exact"] += (fc // 1000000) % 100
+                lfrag["of_which_with_a_loop"] += (fc // 10000) % 100; lfrag["of_which_with_a_do_loop"] += (fc // 100) % 100; lfrag["of_which_with_a_for_loop"] += fc % 100
             elif fc >= 200000000:
                 fc -= 200000000
                 ffrag["functions"] += fc // 1000000; ffrag["inside_lowering_fragment"] += (fc // 10000) % 100
